@@ -402,6 +402,25 @@ def r6_cache_invalidation(ctx):
             ctx.ob("C17.R6", RES, f"Table.{mname}", nd.ast, "rows added here invalidate the cached index ranges before the method returns", p_ is None and bool(via),
                    detail=None if p_ is None else {"path_without_reset": g.describe_path(p_)})
     ctx.floor("C17.R6", "row-adding statements in Table methods", n, 3)
+    # the ranges are a function of the current indexes and data: the function that computes them consults no earlier result,
+    # and index() stores a fresh computation on every path after it reordered the rows
+    for fname in ("_calc_lohis", "_sub_lohis"):
+        f = cls.methods.get(fname)
+        if f is None:
+            continue
+        reads = sorted({a.attr for a in ast.walk(f) if is_self_attr(a) and a.attr in caches})
+        ctx.ob("C17.R6", RES, f"Table.{fname}", f, "the range computation reads no cached ranges (it cannot hand back ranges computed for an earlier row order)", not reads,
+               detail={"reads": reads}, stmt=f"{fname} reads no cache")
+    ix = cls.methods["index"]
+    g = CFG(ix)
+    reorder = [nd for nd in g.nodes if nd.kind == "stmt" and isinstance(nd.ast, ast.Assign) and any(unparse(t).startswith("self._data[") or is_self_attr(t, "_indexes") for t in nd.ast.targets)]
+    fresh = {nd.id for nd in g.nodes if nd.kind == "stmt" and isinstance(nd.ast, ast.Assign) and any(is_self_attr(t) and t.attr in caches for t in nd.ast.targets)
+             and "_calc_lohis()" in unparse(nd.ast.value)}
+    ctx.floor("C17.R6", "statements of Table.index that reorder rows or set the index columns", len(reorder), 2)
+    for nd in reorder:
+        p_ = escape_path(g, nd.id, fresh, {g.exit_return}, skip_labels=("exc", "abandon"))
+        ctx.ob("C17.R6", RES, "Table.index", nd.ast, "after rows were reordered / index columns set, index() stores freshly computed ranges before it returns", p_ is None and bool(fresh),
+               detail=None if p_ is None else {"path_without_recompute": g.describe_path(p_)})
 
 
 def _drop_le(tree):
@@ -411,6 +430,8 @@ def _drop_le(tree):
 
 
 CONTROLS = [
+    ("ranges reused when the index column set is unchanged", RES, M.insert_after("Table._calc_lohis", M.text_has("if not self._indexes"),
+        "if self._lohis and self._lohis.keys() == set(self._indexes): return self._lohis"), "C17.R6"),
     ("Missing without <= and >=", RES, _drop_le, "C17.R9"),
     ("bisect shortcut probes an empty range", RES, M.replace_expr("my_bisect_left", "l < h and c[l] == a", "c[l] == a"), "C17.R2"),
     ("groupby walks the finest ranges", RES, M.replace_expr("Table.groupby", "self._lohis[self._indexes[level]]", "self._lohis[self._indexes[-1]]", nth=0, count=4), "C17.R8"),
